@@ -286,9 +286,86 @@ def block_graphs(draw, max_n):
     return g
 
 
+# --------------------------------------------------------------------------
+# histories: one graph object queried, edited, queried again
+
+
+def run_history(g0, ops):
+    """g0: initial graph; ops: list of (kind, name, targets).  After the
+    construction and after every edit all queries are asked of the SAME graph
+    object and judged against the graph as it then is.  raises M.Viol"""
+    scfg = SCFG({k: BasicBlock(name=k, _jump_targets=tuple(v)) for k, v in g0.items()})
+
+    def current():
+        return {k: tuple(b._jump_targets) for k, b in scfg.graph.items()}
+
+    def ask(step):
+        g = current()
+        if not g:
+            return
+        names = list(g)
+        subs = list(all_subsets(names)) if len(names) <= 4 else [tuple(names), tuple(names[:2]), tuple(names[1:]), tuple(names[::2])]
+        try:
+            check_queries(scfg, g, subs, meta=True)
+        except M.Viol as v:
+            raise M.Viol(v.clause, f"after {step}: {v.msg}")
+
+    ask("construction")
+    for i, (kind, name, targets) in enumerate(ops):
+        if kind == "add":  # new or replaced block through the public method
+            scfg.add_block(BasicBlock(name=name, _jump_targets=tuple(targets)))
+        elif kind == "retarget" and name in scfg.graph:  # the library's own idiom
+            scfg.add_block(scfg.graph.pop(name).replace_jump_targets(jump_targets=tuple(targets)))
+        elif kind == "remove" and name in scfg.graph and len(scfg.graph) > 1:
+            scfg.remove_blocks({name})
+        elif kind == "set":  # the graph mapping written directly (it is a public field; the library does so itself)
+            scfg.graph[name] = BasicBlock(name=name, _jump_targets=tuple(targets))
+        elif kind == "pop" and name in scfg.graph and len(scfg.graph) > 1:
+            scfg.graph.pop(name)
+        else:
+            continue
+        ask(f"edit #{i + 1} {kind}({name}, {list(targets)})")
+
+
+@st.composite
+def histories(draw):
+    g0 = draw(block_graphs(5))
+    names = list(g0) + ["5", "6"]
+    syms = names + list(EXT)
+    ops = []
+    for _ in range(draw(st.integers(1, 4))):
+        kind = draw(st.sampled_from(["add", "retarget", "retarget", "remove", "set", "set", "pop"]))
+        name = draw(st.sampled_from(names))
+        targets = tuple(draw(st.sampled_from(syms)) for _ in range(draw(st.integers(0, 3))))
+        ops.append((kind, name, targets))
+    return g0, ops
+
+
+def _run_hist(spec):
+    _, seed, shard, examples = spec
+    col = Collector()
+
+    @hseed(h64(("c13hist", seed, shard)))
+    @settings(max_examples=examples, database=None, deadline=None, phases=[Phase.generate], suppress_health_check=list(HealthCheck))
+    @given(h=histories())
+    def t(h):
+        g0, ops = h
+        try:
+            run_history(g0, ops)
+        except M.Viol as v:
+            col.fail(f"C13:hist:{v.clause}", v.msg, dict(mode="history", graph=[[k, list(t_)] for k, t_ in g0.items()], ops=[[k, n, list(t_)] for k, n, t_ in ops]), len(g0) + len(ops))
+        col.count("history_steps", len(ops))
+        col.case(("hist", tuple(g0.items()), tuple(ops)), len(g0) + len(ops), len(ops) >= 2, sample=dict(mode="history", graph=gstr(g0), ops=[f"{k}({n},{list(t_)})" for k, n, t_ in ops]), classes=["history"])
+
+    t()
+    return col.result()
+
+
 def run(spec):
     col = Collector()
     kind = spec[0]
+    if kind == "hist":
+        return _run_hist(spec)
     if kind == "exh":
         _, n, maxdeg, shard, nshards, stride, off = spec
         opts = options(n, maxdeg)
@@ -391,7 +468,9 @@ def plan(tier, seed):
         specs += [("enum", n, 0, 1, 1, 0) for n in (3, 4)]
         specs += [("enum", 5, s, 16, 24, seed % 24) for s in range(16)]
         specs += [("hypg", seed, s, 60, 14) for s in range(16)]
+        specs += [("hist", seed, s, 120) for s in range(8)]
     else:
+        specs += [("hist", seed, s, 2500) for s in range(16)]
         specs += [("exh", 1, 3, 0, 1, 1, 0), ("exh", 2, 3, 0, 1, 1, 0)]
         specs += [("exh", 3, 3, s, 32, 1, 0) for s in range(32)]
         specs += [("exh", 4, 2, s, 32, 2, seed) for s in range(32)]
@@ -410,6 +489,12 @@ def replay(inp):
             _eval_hier(col, gg.graph_from_json(inp["graph"]), "replay")
             return [(s, f["msg"]) for s, f in col.failures.items()]
         g = {k: tuple(v) for k, v in inp["graph"]}
+        if inp.get("mode") == "history":
+            try:
+                run_history(g, [(k, n, tuple(t_)) for k, n, t_ in inp["ops"]])
+            except M.Viol as v:
+                return [(f"C13:hist:{v.clause}", v.msg)]
+            return []
         check_graph(g, [tuple(s) for s in inp["subsets"]])
     except M.Viol as v:
         return [(f"C13:{v.clause}", v.msg)]
